@@ -1,0 +1,31 @@
+//go:build verif
+
+package util
+
+// Contracts for /verif (gvc). Comment-only file; see /verif/DESIGN.md §4 (T-unsafe).
+// Unsafe re-views of the same bytes: trusted frames and length facts (element equations are not modelled).
+
+//@ func Bytes2Float64Slice
+//@   trusted unsafe re-view of the same bytes
+//@   ensures len(result) == len(b) / 8
+//@   assigns nothing
+//@ func Bytes2Uint64Slice
+//@   trusted unsafe re-view of the same bytes
+//@   ensures len(result) == len(b) / 8
+//@   assigns nothing
+//@ func Bytes2Int64Slice
+//@   trusted unsafe re-view of the same bytes
+//@   ensures len(result) == len(b) / 8
+//@   assigns nothing
+//@ func Float64Slice2byte
+//@   trusted unsafe re-view of the same bytes
+//@   ensures len(result) == len(b) * 8
+//@   assigns nothing
+//@ func Int64Slice2byte
+//@   trusted unsafe re-view of the same bytes
+//@   ensures len(result) == len(b) * 8
+//@   assigns nothing
+//@ func Uint64Slice2byte
+//@   trusted unsafe re-view of the same bytes
+//@   ensures len(result) == len(b) * 8
+//@   assigns nothing
